@@ -120,7 +120,7 @@ def check_config(S, cfg, rep):
                    key="C01.c|%s|%s|%s" % (cfg["kind"], out_name, why[:120]))
         else:
             srcs = ext_sources(st, [e])
-            pub = {n for n in srcs if n.split("'")[0].startswith(("vorticity_field", "velocity_field", "eul_grid_forcing_field"))}
+            pub = {n for n in srcs if n.split("'")[0].startswith(("vorticity_field", "velocity_field", "eul_grid_forcing_field", "stream_func_field"))}
             ok = pub == {src_version}
             rep.ob("C01.c", inst, ok, "fast-diagonalisation solve of %s reads %s" % (out_name, sorted(pub)) if not ok
                    else "solve depends on the matching vorticity component only", key="C01.c|%s|%s|fd|%s" % (cfg["kind"], out_name, sorted(pub)))
